@@ -142,7 +142,7 @@ func svGetDomain(e *svEnv, n ons.Name) *ons.Domain {
 //
 // sv:bounds names {a.ol, x.a.ol} plus a bystander ba.ol (owned by the last party, never named by the transaction; its text ends with a.ol); a.ol absent or present with arbitrary owner/beneficiary among 2 (quick) / 3 (thorough) parties, expiry (0..2^40), sale flag and price, active flag; x.a.ol absent or present (owned by a.ol's owner), and with it a second sub-domain y.a.ol absent or present; kind any of create/update/sell/purchase/send/renew/delete-sub; actor (owner/buyer/sender field, who signs) any party; amounts any integer in {OLT, unregistered} (quick) / any of the 4 currency names (thorough); balances arbitrary (< 2^100 nue); ONS options of the devnet genesis (base price 10^21, per-block 10^14); mempool-admitted regime; block height 20, committed version 2
 // sv:outside domain-name syntax beyond the two names; option changes; histories (one step)
-// sv:goal the bystander record never changes; owner, beneficiary, sale status/price, active flag, expiry and the sub-domain of a.ol change only if the actor is its current owner, or through a purchase; a purchase of a name on sale and not expired debits the buyer by at least the asking price and credits the previous owner exactly the asking price; a purchase of an expired name pays at least the base price into the fee pool and sets expiry = version + floor((offering - base)/perBlock), a purchase on sale extends the remaining life by floor((offering - price)/perBlock); create only succeeds for a name without a record, and sets expiry = version + floor((price - base)/perBlock) (a sub-name: its parent's expiry); renew extends the expiry by exactly floor(price/perBlock); the sub-names' expiry follows their parent's on renew; a purchase and a delete-sub naming the parent remove every sub-domain, a delete-sub naming x.a.ol removes only that one
+// sv:goal the bystander record never changes; owner, beneficiary, sale status/price, active flag, expiry and the sub-domain of a.ol change only if the actor is its current owner, or through a purchase; a purchase of a name on sale and not expired debits the buyer by at least the asking price and credits the previous owner exactly the asking price; a purchase of an expired name pays at least the base price into the fee pool and sets expiry = version + floor((offering - base)/perBlock), a purchase on sale extends the remaining life by floor((offering - price)/perBlock); create only succeeds for a name without a record, and sets expiry = version + floor((price - base)/perBlock) (a sub-name: its parent's expiry); renew extends the expiry by exactly floor(price/perBlock); the sub-names' expiry follows their parent's on renew; a purchase leaves the name off sale and, like a delete-sub naming the parent, removes every sub-domain, a delete-sub naming x.a.ol removes only that one
 func SV_C20_ons_step() {
 	pre := &svDomainPre{}
 	n := 3
@@ -207,6 +207,8 @@ func SV_C20_ons_step() {
 			}
 			sv.Cover(true, "bought-expired")
 		}
+		// the name comes to the buyer without the previous owner's sale offer
+		sv.Assert(top1 != nil && !top1.OnSaleFlag, "a-purchase-closes-the-previous-owner's-sale")
 		sv.Assert(sub1 == nil && sub21 == nil, "purchase-removes-the-sub-domains")
 		sv.Cover(sub20 != nil, "bought-with-two-sub-domains")
 	}
